@@ -238,13 +238,14 @@ def validate(ctx, parts, cfg="MembersTrace_conc.cfg"):
 
 
 def overlaps(h, addr):
-    """which kinds of joins / leaves of the address were in progress at the same time"""
+    """which kinds of joins / leaves of the address (of any address if None) and Empty calls were in progress at the same time"""
     open_, kinds = {}, set()
     for e in h:
         if e["a"] == "Call":
-            if e["op"] in ("Join", "Leave") and e["addr"] == addr:
+            if (e["op"] in ("Join", "Leave") and addr in (None, e["addr"])) or e["op"] == "Empty":
                 for o in open_.values():
-                    kinds.add("||".join(sorted([o.lower(), e["op"].lower()], reverse=True)))
+                    if (o, e["op"]) != ("Empty", "Empty"):
+                        kinds.add("||".join(sorted([o.lower(), e["op"].lower()], key=lambda x: ("empty", "leave", "join").index(x))))
                 open_[e["g"]] = e["op"]
         elif e["a"] == "Ret":
             open_.pop(e["g"], None)
@@ -276,9 +277,6 @@ def judge_concurrent(ctx, fam, notlin):
         calls = [e for e in h if e["a"] == "Call"]
         if ev["a"] == "Final":
             cls, addr = final_class(ev)
-            if addr is None:
-                touched = [e["addr"] for e in calls if e["op"] in ("Join", "Leave") and e["g"] != 0]
-                addr = touched[0] if touched else None
             what = "after-all-returned:" + cls
         elif ev["a"] == "Ret":
             c = {"op": "?", "addr": None}
@@ -291,9 +289,10 @@ def judge_concurrent(ctx, fam, notlin):
             what = "answer-of-%s" % c["op"]
         else:
             addr, what = None, "event-" + ev["a"]
-        ov = overlaps(h, addr) if addr else []
-        shape = ov[0] if len(ov) == 1 else ("several-overlapping-joins/leaves-of-the-address" if ov
-                                            else "no-overlapping-join/leave-of-the-address")
+        ov = overlaps(h, addr)
+        shape = ("empty-overlapping-joins/leaves" if any(k.startswith("empty") for k in ov)
+                 else ov[0] if len(ov) == 1
+                 else "several-overlapping-joins/leaves-of-the-address" if ov else "no-overlapping-join/leave-of-the-address")
         key = "not-linearizable(%s;%s)" % (shape, what)
         ctx.violation(key, "history %d (%s): no order of the calls explains %s%s; overlapping on it: %s; calls in the order they "
                       "started: %s" % (h[0]["i"], fam, what, " of " + addr if addr else "", ",".join(ov) or "-",
@@ -309,10 +308,11 @@ def show(e):
     return "g%d:%s(%s)=%s" % (e["g"], e["op"], arg, json.dumps(val, separators=(",", ":")))
 
 
-def free_family(c, num, strict):
-    """seeded random histories of 2-4 goroutines with delays at the boundaries, and the search for their linearizations"""
+def free_family(c, num, strict, empty=0):
+    """seeded random histories of 2-4 goroutines with delays at the boundaries (empty: percentage of Empty() among the calls),
+    and the search for their linearizations"""
     t = os.path.join(c.work, "free.ndjson")
-    p = c.vh(["C37", "free", "--num", num, "--base", 200000, "--out", t], timeout=1800)
+    p = c.vh(["C37", "free", "--num", num, "--base", 400000 if empty else 200000, "--empty", empty, "--out", t], timeout=1800)
     hs = split_histories(core.read_ndjson(t))
     if len(hs) != num:
         raise core.MachineryError("%d of %d free-running histories were recorded" % (len(hs), num))
@@ -369,13 +369,17 @@ def run(ctx):
             ("MembersPool_mc", model, ("MembersPool", "MembersPool_mc_quick.cfg" if quick else "MembersPool_mc_thorough.cfg")),
             ("cand_leave", candidate, ("MembersPool_cand_leave.cfg", "AtRestConsistent"))]
     if not quick:
-        jobs.insert(0, ("forced3", forced_family, ("MembersPool_sched_thorough.cfg", ("a1", "a1"), 100001, 20000, True, 0.01)))
+        jobs.insert(0, ("forced3", forced_family, ("MembersPool_sched_thorough.cfg", ("a1", "a1"), 100001, 8000, False, 0.01)))
         jobs.append(("cand_join", candidate, ("MembersPool_cand_join.cfg", "AtRestConsistent")))
+        # Empty() among the calls (it clears the two tables one after the other and has no boundary it could be held at)
+        jobs.append(("cand_empty", candidate, ("MembersPool_cand_empty.cfg", "AtRestConsistent")))
+        jobs.append(("free_empty", free_family, (6000, False, 20)))
     done = side_by_side(ctx, jobs, workers=8 if quick else 5)
     by = {lb: d for (lb, _, _), d in zip(jobs, done)}
     ctx.extra["model_candidate_leave_updates_node_list_after_the_address_critical_section"] = by["cand_leave"]
     if "cand_join" in by:
         ctx.extra["model_candidate_join_updates_node_lists_after_the_address_critical_section"] = by["cand_join"]
+        ctx.extra["model_repo_discipline_with_Empty_among_the_calls"] = by["cand_empty"]
     for lb in ("seq_exhaustive", "seq_random"):
         judge_sequential(ctx, *by[lb])
 
@@ -400,6 +404,14 @@ def run(ctx):
         ctx.case(["free", calls], nontrivial=any(c[0] != 0 and c[1] in ("Join", "Leave") for c in calls),
                  sample={"concurrent": calls} if len(ctx.samples) < 5 else None)
     ctx.traces += len(freehs)
+    if "free_empty" in by:
+        ehs, estat, nl, _ = by["free_empty"]
+        fam["free_running_with_Empty"] = estat
+        judge_concurrent(ctx, "free-running, Empty among the calls", nl)
+        for h in ehs:
+            calls = [[e["g"], e["op"], e["addr"], e["node"]] for e in h if e["a"] == "Call"]
+            ctx.case(["free", calls], nontrivial=any(c[0] != 0 and c[1] in ("Join", "Leave", "Empty") for c in calls))
+        ctx.traces += len(ehs)
     ctx.extra["concurrent_histories"] = fam
     if not quick:
         # the stronger reading, reported only: also the reads of the per-node lists / of the length made WHILE other calls are
@@ -413,5 +425,6 @@ def run(ctx):
                        "constrained (a re-join under another node moves the address between two lists in two steps; the length "
                        "is a counter updated after the shard); Exists / Get, the answers of Join / Leave and everything after "
                        "all calls returned are",
-                       "Empty() is driven sequentially only",
+                       "Empty() is driven sequentially in the quick tier; from goroutines (free-running only: it has no boundary "
+                       "it could be held at) in the thorough tier",
                        "a schedule the table's locks forbid is not forced (it degrades into one they allow)"]
